@@ -4,8 +4,11 @@ property, shard and case counts per tier, the non-triviality rule text."""
 E2_RULE = ("Cases are generated concurrent programs (rapid v1.3.0 generators: container configuration, sequential prefix "
            "incl. fill level steered to grow/shrink thresholds by probing, 2-4 thread programs of 1-3 calls, layout seed) "
            "x explicit schedules (every thread first non-preemptively; single-preemption sweep over every scheduling point of "
-           "the first thread; sampled PCT priority schedules with 2 and 3 change points; random walks; thorough tier: all "
-           "double preemptions of 2-thread micro programs). evaluations = executions (program x schedule), each checked by "
+           "the first thread; kind-directed second preemption of every other thread at its first Cond.Wait / Broadcast when the "
+           "single-preemption run involved the resize condition; sampled PCT priority schedules with 2 and 3 change points; "
+           "random walks; thorough tier: deeper programs and all double preemptions of 2-thread micro programs). For a third of "
+           "the cache programs the virtual clock TICKS on every read, so time passes between the steps of a call and TTLs of 1-8 "
+           "ticks expire during the concurrent phase; otherwise it is frozen during the phase. evaluations = executions (program x schedule), each checked by "
            "the oracle. An execution is non-trivial when >= 2 calls of different threads overlapped in time on one key (or "
            "one of them was a whole-container call: Clear/Range/Items/DeleteExpired/Size/Count), at least one of them "
            "modifies, and at least one preemptive context switch happened inside a call. distinct = distinct 64-bit hash of "
